@@ -1,4 +1,4 @@
-HOOK_COMMITS = ["8abe067"]
+HOOK_COMMITS = ["8abe067", "98c08e4"]
 NOTES = ("Technique family: runtime monitoring and sanitizers. Exit codes: 0 held, 1 violation, 3 inconclusive "
          "(build failure / watchdog / empty stratum). Known findings: /verif/known_findings.json (signature-keyed).")
 NOT_APPLICABLE = {}
@@ -64,5 +64,29 @@ CHECKS = {
         "level": "Held on ~1.5e6 (quick) / ~5e7 (thorough) parser executions incl. ladders to depth 1e5 and every prefix of valid filters; every accepted text evaluated under the call cap.",
         "note": "Trusted: hook H1 covers the parser's loops; the resolver cap (40 calls for a 5-record world) is far above what a visited-set traversal needs (observed max reported).",
         "design_ref": "DESIGN.md §4 C09",
+    },
+    "C15": {
+        "technique": "exhaustive lookup + codec monitor over the unit database (units x identifiers x magnitudes), sampled non-identifier probe",
+        "level": "Complete for the finite part: 443 units, all their identifiers, 9 magnitudes, both codecs. Non-identifiers: 1e5 (quick) / 3e6 (thorough) near misses.",
+        "note": "Trusted: enumeration of the database through the public UNITS map; refzinc number spellings.",
+        "design_ref": "DESIGN.md §4 C15",
+    },
+    "C16": {
+        "technique": "exhaustive conversion/algebra monitor over all ordered unit pairs with the formula recomputed by the harness; sampled Number arithmetic",
+        "level": "Complete over 196,249 ordered pairs x 5 magnitudes for convert_to, * and /; Number arithmetic sampled 3e5 (quick) / 6e6 (thorough).",
+        "note": "Trusted: the dimension vectors and scales in the database are data; tolerances as stated in the evidence.",
+        "design_ref": "DESIGN.md §4 C16",
+    },
+    "C13": {
+        "technique": "graph-oracle monitor: every namespace query compared, as sets, with BFS closures over the 'is' edges; exhaustive on the shipped defs, sampled on random taxonomies",
+        "level": "Complete for tests/defs/defs.zinc (714 symbols, 509,796 ordered fits pairs, every per-symbol query); 5e3 (quick) / 1.3e5 (thorough) random taxonomies.",
+        "note": "Trusted: harness/src/refdefs.rs (30 lines of BFS) and the Zinc decoder used to load the defs grid.",
+        "design_ref": "DESIGN.md §4 C13",
+    },
+    "C14": {
+        "technique": "stress monitor with injected yield points (hook H2) + answer oracle + deadlock detector + cache event log; ThreadSanitizer and Miri runs of the same workload in thorough",
+        "level": "Held on ~2e3 (quick) / ~3e4 (thorough) concurrent trials on cold namespaces with hundreds of contended misses and lost races observed per run, zero TSan/Miri reports. Schedules are sampled, not enumerated.",
+        "note": "Trusted: the oracle; that the yield points sit where a get-or-compute-then-insert cache can go wrong; TSan sees dashmap's locks (std instrumented through -Zbuild-std).",
+        "design_ref": "DESIGN.md §4 C14, §2 H2",
     },
 }
